@@ -103,6 +103,17 @@ theorem inv_step (w : World) (a : Action) (hinv : Inv w) : Inv (step w a) := by
     simp only [step]
     cases hpc : w.pcs t <;> simp only [hpc, LocalOk] at this ⊢ <;> try exact this
     intro c h; simp at h
+  | stray ty name b =>
+    refine ⟨?_, ?_⟩
+    · intro k c h
+      simp only [step, upd] at h
+      split at h
+      · rename_i heq; cases heq
+      · exact hinv.cache k c h
+    · intro t
+      have := hinv.loc t
+      simp only [step]
+      cases hpc : w.pcs t <;> simp only [hpc, LocalOk] at this ⊢ <;> try exact this
 
 /-- No incomplete file is ever observable at a cache location, for every interleaving, fault sequence and crash point. -/
 theorem inv_run (w : World) (as : List Action) (hinv : Inv w) : Inv (run w as) := by
@@ -485,6 +496,7 @@ theorem logInv_step (w : World) (a : Action) (h : LogInv w) : LogInv (step w a) 
          · simpa [Pend, upd, hne] using hk))
   | clearTy ty => exact LogInv.same_log w _ h rfl (fun t k hk => hk)
   | clearAll => exact LogInv.same_log w _ h rfl (fun t k hk => hk)
+  | stray ty name b => exact LogInv.same_log w _ h rfl (fun t k hk => hk)
 
 theorem logInv_run (w : World) (as : List Action) (h : LogInv w) : LogInv (run w as) := by
   induction as generalizing w with
